@@ -13,6 +13,7 @@ import common  # noqa: E402
 from vlib.core import SplitMix  # noqa: E402
 
 KEY_D7 = "permanent-receiver-skips-comm-queue"
+KEY_PROBE = "iprobe-resets-mbox-of-queued-comm"
 SIZES = [0, 1, 100, 1000, 65536, 1000000, 31415926]
 RATES = ["-1", "-1", "-1", "1e5", "1e3", "5e6"]
 
@@ -123,6 +124,8 @@ def classify(res, verdict):
     fifo = ("older send accepted by both" in verdict or "left unmatched" in verdict or "older receive accepted" in verdict)
     if fifo and " setrecv " in res["program"]:
         return KEY_D7
+    if "whose mbox_ was reset by an iprobe" in verdict:
+        return KEY_PROBE
     return None
 
 
@@ -193,7 +196,7 @@ def run(ctx):
         if mon:
             key = classify(r, mon[0][1])
             if key:
-                bump("d7_witnesses")
+                bump("witnesses_" + key)
             ctx.violation(mon[0][1], case, key=key)
         else:
             ctx.broken.append({"kind": "correspondence", "program": r["program"], "first": r["bad"][0]})
